@@ -537,7 +537,7 @@ def run(chk: core.Check, tier: str, seed: int) -> None:
         recs += hammer_records(jp, rng, nt, 60 if tier == "quick" else 600)
         recs += hammer_records(jp, rng, nt, 6000 if tier == "quick" else 60000, light=True)
         recs += fresh_env_records(jp, rng, nt, 150 if tier == "quick" else 3000)
-    precs, n_sched, stuck = preempt_records(jp, rng, 40 if tier == "quick" else 100000)
+    precs, n_sched, stuck = preempt_records(jp, rng, 40 if tier == "quick" else 1500)
     recs += precs
     chk.notes["preemption_schedules"] = n_sched
     chk.notes["preemption_schedules_released_because_a_thread_blocked_on_a_lock"] = FREED[0]
